@@ -1,5 +1,6 @@
 import FH.Dwarf
 import FH.Pe
+import FH.Cui
 /-!
 # Modules, the sorted module list, FDE lookup in the three presentations
 (`unwinder.rs`: `add_module`, `remove_module`, `find_module_for_address`,
@@ -28,6 +29,9 @@ inductive UnwindData where
   | none
   | dwarf (pres : Pres) (fdes : List Fde)   -- `fdes` in section order
   | pe (funcs : List PeFunc)                -- `.pdata` entries in table order
+  /-- Mach-O: `__unwind_info` (each entry's opcode parsed for both architectures' opcode
+  layouts), and `__eh_frame` FDEs with their section offsets, if present. -/
+  | macho (d : CuiData (CuiOpX64 × CuiOpA64)) (eh : Option (List (Nat × Fde)))
   deriving Repr, Inhabited
 
 structure Module where
